@@ -517,8 +517,11 @@ func (e *engine) validate(w *world, kind string, actions []string, drained bool)
 	mon := ""
 	key := "sigsrv.trace:" + kind
 	// retry once after a longer settle if the model still sees pending wake-ups (scheduling latency)
-	if strings.HasPrefix(model, "ok ") && (lib.KV(model, "awake") != "_" || lib.KV(model, "failing") != "_" || lib.KV(model, "pendingtx") != "_") {
-		w.quiesce(20 * time.Millisecond)
+	for _, wait := range []time.Duration{20, 60, 150, 400, 1000} {
+		if !(strings.HasPrefix(model, "ok ") && (lib.KV(model, "awake") != "_" || lib.KV(model, "failing") != "_" || lib.KV(model, "pendingtx") != "_")) {
+			break
+		}
+		w.quiesce(wait * time.Millisecond / 3)
 		trace, cerr = w.canonical()
 		op = "sig.trace evs=" + trace
 		model = e.m.Query(op)
